@@ -146,6 +146,9 @@ func (ex *Exec) intrinsic(fn *ssa.Function, args []Value) (Value, bool) {
 			ex.call(Closure{fn: wp}, []Value{args[0], ex.strConst("R")}, nil)
 			return nil, true
 		}
+	case "github.com/trzsz/trzsz-go/trzsz.writeToClipboard":
+		ex.stubsUsed[name]++
+		return nil, true
 	case "(*github.com/trzsz/trzsz-go/trzsz.zmodemTransfer).showProgress":
 		// progress text of the zmodem bridge (float formatting): outside every claim
 		ex.stubsUsed[name]++
